@@ -61,7 +61,7 @@ class C19(Check):
     def run_shard(self, shard, tier, seed, rec):
         scale = float(os.environ.get('ASN1V_SCALE', '1'))
         n = max(1, int((12 if tier == "quick" else 600) * scale))
-        prof = gen.Profile(max_types=4, max_depth=3, ext_implied=True, components_of_rate=25, alias_chain_rate=60,
+        prof = gen.Profile(max_types=4, max_depth=3, ext_implied=True, components_of_rate=25, components_of_tagged=True, alias_chain_rate=60,
                            same_defaults_rate=50, dup_names_rate=30)
 
         def body(case, rec):
